@@ -94,36 +94,42 @@ Qed.
 
 (* ---------- publish as a record-wise map ---------- *)
 
-Definition pub_rec (tag : N) (t : topic) (r : srec) : srec :=
-  if existsb (N.eqb t) (s_subs r) then
+Definition pub_rec (self : bool) (tag : N) (t : topic) (r : srec) : srec :=
+  if existsb (smatch self t) (s_subs r) then
     match s_conn r with
     | Some _ => r
     | None => mkS None (s_v5 r) (s_durable r) (s_expiry r) (s_subs r) (s_queue r ++ [tag]) (s_present r) (s_expire_at r) (s_will r) (s_will_at r)
     end
   else r.
 
-Definition pub_out (tag : N) (t : topic) (r : srec) : list out :=
-  if existsb (N.eqb t) (s_subs r) then match s_conn r with Some c => [ODeliver c tag] | None => [] end else [].
+Definition pub_out (self : bool) (tag : N) (t : topic) (r : srec) : list out :=
+  if existsb (smatch self t) (s_subs r) then match s_conn r with Some c => [ODeliver c tag] | None => [] end else [].
 
-Lemma publish_spec s tag t :
-  publish s tag t =
-  (mkSt (now s) (maprec (fun _ => pub_rec tag t) (sess s)) (preempt s) (stopped s) (retained s),
-   flat_map (fun ir => pub_out tag t (snd ir)) (sess s)).
+Lemma publish_by_spec who s tag t :
+  publish_by who s tag t =
+  (mkSt (now s) (maprec (fun i => pub_rec (is_self who i) tag t) (sess s)) (preempt s) (stopped s) (retained s),
+   flat_map (fun ir => pub_out (is_self who (fst ir)) tag t (snd ir)) (sess s)).
 Proof.
-  unfold publish.
+  unfold publish_by.
   set (stepf := fun (acc : list (sid * srec) * list out) (ir : sid * srec) => _).
-  assert (S1 : forall a o i r, stepf (a, o) (i, r) = (a ++ [(i, pub_rec tag t r)], o ++ pub_out tag t r)).
+  assert (S1 : forall a o i r, stepf (a, o) (i, r) = (a ++ [(i, pub_rec (is_self who i) tag t r)], o ++ pub_out (is_self who i) tag t r)).
   { intros a o i r. unfold stepf, pub_rec, pub_out.
-    destruct (existsb (N.eqb t) (s_subs r)); [destruct (s_conn r)|]; rewrite ?app_nil_r; reflexivity. }
+    destruct (existsb (smatch (is_self who i) t) (s_subs r)); [destruct (s_conn r)|]; rewrite ?app_nil_r; reflexivity. }
   assert (G : forall l a o, fold_left stepf l (a, o) =
-            (a ++ maprec (fun _ => pub_rec tag t) l, o ++ flat_map (fun ir => pub_out tag t (snd ir)) l)).
+            (a ++ maprec (fun i => pub_rec (is_self who i) tag t) l, o ++ flat_map (fun ir => pub_out (is_self who (fst ir)) tag t (snd ir)) l)).
   { induction l as [|[i r] l IH]; intros a o; cbn [fold_left maprec map flat_map fst snd].
     - rewrite !app_nil_r. reflexivity.
     - rewrite S1, IH. rewrite <- !app_assoc. reflexivity. }
   rewrite G. cbn [app]. reflexivity.
 Qed.
 
-Lemma pub_rec_empty tag t : pub_rec tag t empty_rec = empty_rec.
+Lemma publish_spec s tag t :
+  publish s tag t =
+  (mkSt (now s) (maprec (fun _ => pub_rec false tag t) (sess s)) (preempt s) (stopped s) (retained s),
+   flat_map (fun ir => pub_out false tag t (snd ir)) (sess s)).
+Proof. unfold publish. rewrite publish_by_spec. reflexivity. Qed.
+
+Lemma pub_rec_empty self tag t : pub_rec self tag t empty_rec = empty_rec.
 Proof. reflexivity. Qed.
 
 (* ---------- timers as a record-wise map ---------- *)
@@ -285,9 +291,9 @@ Qed.
 
 (* ---------- PUBLISH / SUBSCRIBE ---------- *)
 
-Lemma pub_rec_ok tag t r : rec_ok r -> rec_ok (pub_rec tag t r).
+Lemma pub_rec_ok self tag t r : rec_ok r -> rec_ok (pub_rec self tag t r).
 Proof.
-  intros Hr. unfold pub_rec. destruct (existsb (N.eqb t) (s_subs r)) eqn:Ex; [|exact Hr].
+  intros Hr. unfold pub_rec. destruct (existsb (smatch self t) (s_subs r)) eqn:Ex; [|exact Hr].
   destruct (s_conn r) eqn:Hc; [exact Hr|].
   destruct Hr as [H1 [H2 [H3 H4]]]. unfold rec_ok; cbn. repeat split; auto; try congruence.
   all: try match goal with Hp : s_present _ = false |- _ => destruct (H1 Hp) as [Hs _]; first [exact Hs | rewrite Hs in Ex; discriminate] end.
@@ -295,11 +301,14 @@ Proof.
   all: try (apply H4; exact Hc).
 Qed.
 
-Lemma publish_inv s tag t : Inv s -> Inv (fst (publish s tag t)).
+Lemma publish_by_inv who s tag t : Inv s -> Inv (fst (publish_by who s tag t)).
 Proof.
-  intros HI. rewrite publish_spec. unfold Inv. cbn [fst sess].
-  apply lInv_maprec; [reflexivity | intros _ r; apply pub_rec_ok | exact HI].
+  intros HI. rewrite publish_by_spec. unfold Inv. cbn [fst sess].
+  apply lInv_maprec; [reflexivity | intros i r; apply pub_rec_ok | exact HI].
 Qed.
+
+Lemma publish_inv s tag t : Inv s -> Inv (fst (publish s tag t)).
+Proof. apply publish_by_inv. Qed.
 
 Lemma subscribe_inv s id t : Inv s -> Inv (fst (subscribe s id t)).
 Proof.
@@ -347,6 +356,7 @@ Proof.
   - destruct (stopped s); [exact HI | apply connect_inv; exact HI].
   - apply subscribe_inv; exact HI.
   - apply publish_inv; exact HI.
+  - apply publish_by_inv; exact HI.
   - pose proof (publish_inv s tag t HI) as H. destruct (publish s tag t) as [s1 o]. exact H.
   - exact HI.
   - apply conn_end_inv; exact HI.
@@ -408,29 +418,39 @@ Qed.
 
 Definition attached (s : st) (c : cid) : Prop := exists id, s_conn (get id (sess s)) = Some c.
 
-Lemma publish_out_attached s tag t o : Inv s -> In o (snd (publish s tag t)) -> exists c, o = ODeliver c tag /\ attached s c.
+Lemma publish_by_out_attached who s tag t o : Inv s -> In o (snd (publish_by who s tag t)) -> exists c, o = ODeliver c tag /\ attached s c.
 Proof.
-  intros [Hnd _] Hin. rewrite publish_spec in Hin. cbn [snd] in Hin.
-  apply in_flat_map in Hin. destruct Hin as [[i r] [Hir Ho]]. cbn [snd] in Ho. unfold pub_out in Ho.
-  destruct (existsb (N.eqb t) (s_subs r)); [|destruct Ho].
+  intros [Hnd _] Hin. rewrite publish_by_spec in Hin. cbn [snd] in Hin.
+  apply in_flat_map in Hin. destruct Hin as [[i r] [Hir Ho]]. cbn [fst snd] in Ho. unfold pub_out in Ho.
+  destruct (existsb (smatch (is_self who i) t) (s_subs r)); [|destruct Ho].
   destruct (s_conn r) as [c|] eqn:Hc; [|destruct Ho]. destruct Ho as [<-|[]].
   exists c. split; [reflexivity|]. exists i. rewrite (get_in i r _ Hnd Hir). exact Hc.
 Qed.
 
-(* a publish reaches every attached subscriber, and queues for every detached one *)
-Lemma publish_delivers s tag t id c : Inv s ->
-  s_conn (get id (sess s)) = Some c -> existsb (N.eqb t) (s_subs (get id (sess s))) = true ->
-  In (ODeliver c tag) (snd (publish s tag t)).
+Lemma publish_out_attached s tag t o : Inv s -> In o (snd (publish s tag t)) -> exists c, o = ODeliver c tag /\ attached s c.
+Proof. apply publish_by_out_attached. Qed.
+
+Lemma in_get id (l : list (sid * srec)) c : s_conn (get id l) = Some c -> In (id, get id l) l.
 Proof.
-  intros [Hnd _] Hc Hs. rewrite publish_spec. cbn [snd]. apply in_flat_map.
-  exists (id, get id (sess s)). split.
-  - clear Hs. revert Hc. generalize (sess s). intros l. induction l as [|[i x] l IH]; cbn [get]; [discriminate|].
-    destruct (N.eqb i id) eqn:E; [apply N.eqb_eq in E; subst; intros _; left; reflexivity | intros H; right; apply IH; exact H].
-  - cbn [snd]. unfold pub_out. rewrite Hs, Hc. left. reflexivity.
+  induction l as [|[i x] l IH]; cbn [get]; [discriminate|].
+  destruct (N.eqb i id) eqn:E; [apply N.eqb_eq in E; subst; intros _; left; reflexivity | intros H; right; apply IH; exact H].
 Qed.
 
-Lemma publish_rec s tag t id : get id (sess (fst (publish s tag t))) = pub_rec tag t (get id (sess s)).
-Proof. rewrite publish_spec. cbn [fst sess]. apply (get_maprec (fun _ => pub_rec tag t)). reflexivity. Qed.
+(* a publish reaches every attached subscriber, and queues for every detached one *)
+Lemma publish_by_delivers who s tag t id c :
+  s_conn (get id (sess s)) = Some c -> existsb (smatch (is_self who id) t) (s_subs (get id (sess s))) = true ->
+  In (ODeliver c tag) (snd (publish_by who s tag t)).
+Proof.
+  intros Hc Hs. rewrite publish_by_spec. cbn [snd]. apply in_flat_map.
+  exists (id, get id (sess s)). split; [apply (in_get id (sess s) c Hc)|].
+  cbn [fst snd]. unfold pub_out. rewrite Hs, Hc. left. reflexivity.
+Qed.
+
+Lemma publish_by_rec who s tag t id : get id (sess (fst (publish_by who s tag t))) = pub_rec (is_self who id) tag t (get id (sess s)).
+Proof. rewrite publish_by_spec. cbn [fst sess]. apply (get_maprec (fun i => pub_rec (is_self who i) tag t)). reflexivity. Qed.
+
+Lemma publish_rec s tag t id : get id (sess (fst (publish s tag t))) = pub_rec false tag t (get id (sess s)).
+Proof. apply (publish_by_rec None). Qed.
 
 (* ---------- Stop closes everything ---------- *)
 
@@ -665,15 +685,18 @@ Proof.
   rewrite emitted_app. pose proof (fire_conserve g t i r). fold (maprec (fun i r => fst (fire t i r)) l). lia.
 Qed.
 
-Lemma publish_conserve g s tag t : emitted g (snd (publish s tag t)) = 0 /\ held g (sess (fst (publish s tag t))) = held g (sess s).
+Lemma publish_by_conserve g who s tag t : emitted g (snd (publish_by who s tag t)) = 0 /\ held g (sess (fst (publish_by who s tag t))) = held g (sess s).
 Proof.
-  rewrite publish_spec. cbn [fst snd sess]. generalize (sess s). intros l. split.
-  - induction l as [|[i r] l IH]; cbn [flat_map snd]; [reflexivity|]. rewrite emitted_app, IH.
-    unfold pub_out. destruct (existsb (N.eqb t) (s_subs r)); [destruct (s_conn r)|]; reflexivity.
+  rewrite publish_by_spec. cbn [fst snd sess]. generalize (sess s). intros l. split.
+  - induction l as [|[i r] l IH]; cbn [flat_map fst snd]; [reflexivity|]. rewrite emitted_app, IH.
+    unfold pub_out. destruct (existsb (smatch (is_self who i) t) (s_subs r)); [destruct (s_conn r)|]; reflexivity.
   - induction l as [|[i r] l IH]; cbn [maprec map held fst snd]; [reflexivity|].
-    fold (maprec (fun _ => pub_rec tag t) l). rewrite IH. f_equal.
-    unfold pub_rec, holds. destruct (existsb (N.eqb t) (s_subs r)); [destruct (s_conn r)|]; reflexivity.
+    fold (maprec (fun i => pub_rec (is_self who i) tag t) l). rewrite IH. f_equal.
+    unfold pub_rec, holds. destruct (existsb (smatch (is_self who i) t) (s_subs r)); [destruct (s_conn r)|]; reflexivity.
 Qed.
+
+Lemma publish_conserve g s tag t : emitted g (snd (publish s tag t)) = 0 /\ held g (sess (fst (publish s tag t))) = held g (sess s).
+Proof. apply publish_by_conserve. Qed.
 
 Lemma subscribe_conserve g s id t : emitted g (snd (subscribe s id t)) = 0 /\ held g (sess (fst (subscribe s id t))) = held g (sess s).
 Proof.
@@ -702,8 +725,9 @@ Lemma step_conserve g s e : emitted g (snd (step s e)) + held g (sess (fst (step
 Proof.
   destruct e; cbn [step uses].
   - destruct (stopped s); [cbn; lia | apply connect_conserve].
-  - destruct (subscribe_conserve g s id t) as [H1 H2]. lia.
+  - destruct (subscribe_conserve g s id k) as [H1 H2]. lia.
   - destruct (publish_conserve g s tag t) as [H1 H2]. lia.
+  - destruct (publish_by_conserve g (Some id) s tag t) as [H1 H2]. lia.
   - destruct (publish_conserve g s tag t) as [H1 H2]. destruct (publish s tag t) as [s1 o]. cbn [fst snd sess] in *. lia.
   - cbn. lia.
   - pose proof (conn_end_conserve g s id with_will expiry). lia.
@@ -834,6 +858,7 @@ Proof.
   - left. unfold subscribe in Hin. destruct (s_conn (get id (sess s))) as [c0|] eqn:Hc; [|destruct Hin].
     cbn [snd] in Hin. apply in_map_deliver in Hin. destruct Hin as [t' E]. inversion E; subst. exists id. exact Hc.
   - left. destruct (publish_out_attached s tag t0 _ HI Hin) as [c' [E Ha]]. inversion E; subst. exact Ha.
+  - left. destruct (publish_by_out_attached (Some id) s tag t0 _ HI Hin) as [c' [E Ha]]. inversion E; subst. exact Ha.
   - left. destruct (publish s tag t0) as [s1 o] eqn:Ep. cbn [snd] in Hin.
     assert (Hin' : In (ODeliver c t) (snd (publish s tag t0))) by (rewrite Ep; exact Hin).
     destruct (publish_out_attached s tag t0 _ HI Hin') as [c' [E Ha]]. inversion E; subst. exact Ha.
